@@ -35,7 +35,7 @@ class qUCC(Ansatz):
         if spin and not isinstance(FieldOperator, LayeredLattice):
             raise ValueError("When 'spin=True', a LayeredLattice is needed.")
         self.field = field
-        if not set(excitations).issubset({"s","d","sd"}):
+        if excitations not in ("s", "d", "sd"):
             raise ValueError("The only options for excitations are single 's', double 'd' or single and double 'sd', while {excitations} was given.")
         self.excitations = excitations
         if not embedding == "jordan_wigner":
